@@ -30,7 +30,7 @@ EXPLANATION = (
     "new rows tolerated only if they are derived SI-prefixed rows of a prefixable symbol with scale prefix*base)."
 )
 BOUNDS = {
-    "quick": "9 registry configurations (A-kind | how B was obtained); 11-operation alphabet (4 edits x 2 registries, derive, mixed-registry "
+    "quick": "11 registry configurations (A-kind | how B was obtained, incl. copy.copy() of a registry and of the default registry); 11-operation alphabet (4 edits x 2 registries, derive, mixed-registry "
              "ops, default-registry ops); ALL interleavings of length <= 3; + 12 fixed histories through the real add_symbols/add_constants; probe set of 17 strings per registry + raw rows; unyt namespace: 24 names",
     "thorough": "12 two-registry configurations + 3 three-registry configurations (15 operations, length <= 3); ALL interleavings of length <= 4 for the four configurations "
                 "{independent, deepcopy, Unit.copy() shallow, unpickled} (cut from 'all twelve' to meet the 15 min budget), <= 3 for the other eight",
@@ -181,6 +181,18 @@ def make_B(ctx, how, A, name="B", others=()):
         return pickle.loads(pickle.dumps(q)).units.registry
     if how == "deepcopy":
         return copy.deepcopy(A)
+    if how == "copy_registry":  # copy.copy() of the registry object itself
+        return copy.copy(A)
+    if how == "copy_default":  # a shallow copy of the library's default registry, then used like any registry of the user's
+        reg = copy.copy(UR.default_unit_registry)
+        s, b = ctx.real("s" + name, pos=True), ctx.real("b" + name, pos=True)
+        if not ctx.pinned:
+            for other in others:
+                ctx.assume(Not(exact_eq(s, other.lut[FOO][0])))
+                ctx.assume(Not(exact_eq(b, other.lut[BAR][0])))
+        reg.add(FOO, s, D.length, prefixable=True)
+        reg.add(BAR, b, D.time)
+        return reg
     if how in ("copy_shallow", "copy_shallow_str"):
         if how == "copy_shallow":  # a unit that did not come from a string
             u = unyt.Unit(FOO, registry=A) * unyt.Unit(BAR, registry=A)
@@ -440,8 +452,9 @@ def make_case(config, prefix, nmax):
 
 CONFIGS2 = [("defaults", "indep_defaults"), ("defaults", "indep_same"), ("empty", "indep_defaults"), ("defaults", "indep_empty"), ("cgs", "indep_defaults"),
             ("lut", "lut_copy"), ("defaults", "json"), ("defaults", "pickle"), ("defaults", "deepcopy"), ("defaults", "copy_deep"),
-            ("defaults", "copy_shallow"), ("defaults", "copy_shallow_str")]
-QUICK_SKIP = [("defaults", "indep_empty"), ("defaults", "copy_deep"), ("defaults", "copy_shallow_str")]
+            ("defaults", "copy_shallow"), ("defaults", "copy_shallow_str"), ("defaults", "copy_registry"), ("cgs", "copy_registry"),
+            ("defaults", "copy_default")]
+QUICK_SKIP = [("defaults", "indep_empty"), ("defaults", "copy_deep"), ("defaults", "copy_shallow_str"), ("cgs", "copy_registry")]
 NAMESPACE_CONFIGS = [("defaults", "indep_defaults"), ("cgs", "indep_defaults"), ("defaults", "deepcopy"), ("defaults", "copy_shallow")]
 LONG = [("defaults", "indep_defaults"), ("defaults", "deepcopy"), ("defaults", "copy_shallow"), ("defaults", "pickle")]
 CONFIGS3 = [("defaults", "deepcopy", "indep_empty"), ("defaults", "copy_shallow", "indep_cgs"), ("defaults", "pickle", "indep_defaults")]
